@@ -467,27 +467,28 @@ func truncate(limit int, s string) string {
 	// Optimistically, assume all valid UTF-8.
 	var b strings.Builder
 	count := 0
+	invalid := false
 	for i, c := range s {
-		if c != utf8.RuneError {
-			count++
-			if count > limit {
-				return s[:i]
+		if c == utf8.RuneError {
+			if _, size := utf8.DecodeRuneInString(s[i:]); size == 1 {
+				// Invalid encoding.
+				invalid = true
+				b.Grow(len(s) - 1)
+				_, _ = b.WriteString(s[:i])
+				s = s[i:]
+				break
 			}
-			continue
+			// A validly encoded U+FFFD is a character like any other.
 		}
 
-		_, size := utf8.DecodeRuneInString(s[i:])
-		if size == 1 {
-			// Invalid encoding.
-			b.Grow(len(s) - 1)
-			_, _ = b.WriteString(s[:i])
-			s = s[i:]
-			break
+		count++
+		if count > limit {
+			return s[:i]
 		}
 	}
 
 	// Fast-path, no invalid input.
-	if b.Cap() == 0 {
+	if !invalid {
 		return s
 	}
 
